@@ -12,6 +12,7 @@ REG = re.compile(r"(?<![\w$.])([a-zA-Z]{1,2}|\$)(\d{1,2})(?![\w.])")
 
 
 def values(quick, addr):
+    quick = False          # both tiers pose the same values: the identity of a finding includes its smallest colliding pair
     ks = (3, 4, 5, 7, 8, 11, 12, 15, 16, 20, 24, 31) if quick else range(0, 32)
     vs = {0}
     for k in ks:
@@ -63,12 +64,15 @@ def analyse(vals_enc):
     byenc = {}
     for v, e in sorted(vals_enc.items()):
         byenc.setdefault(e, []).append(v)
+    best = None
     for e, vs in byenc.items():
         for a in vs:
             for b in vs:
                 if a < b and (a - b) % (1 << w) != 0:
-                    return a, b, w
-    return None
+                    k = (max(abs(a), abs(b)), a, b)
+                    if best is None or k < best[0]:
+                        best = (k, (a, b, w))
+    return best[1] if best else None
 
 
 def job(j):
@@ -102,7 +106,7 @@ def job(j):
             c = analyse({v: b for v, (b, t) in d.items()})
             if c:
                 a, b, w = c
-                viol.append((lines[li], si, "`%s` and `%s` are both accepted and both encode as %s (accepted values span a %d-bit field)" % (
+                viol.append((lines[li], si, "%d~%d" % (a, b), "`%s` and `%s` are both accepted and both encode as %s (accepted values span a %d-bit field)" % (
                     d[a][1], d[b][1], d[a][0].hex(), w)))
         return (cpu, addr), {"texts": len(texts), "accepted": acc, "slots": len(per)}, viol
     except Exception as e:
@@ -114,9 +118,13 @@ NUMABS = re.compile(r"(0x[0-9a-fA-F]+|\$[0-9a-fA-F]+|\d+)")
 
 def decoder_templates(ci, limit):
     """number-abstracted shapes of the decoder's renderings, one representative each (for CPUs without a corpus)"""
-    r = cells.cell_job(("rec_zero", ci, 0x1000, "00", 0, True))
+    texts = []
+    c = cpus.cpu_list()[ci]
+    for fill in ("ff", "00"):                 # non-zero operand fields first: a zero displacement is often not printed at all
+        for half in ([0, 1] if cells.unit(c) >= 4 else [0]):
+            texts += cells.cell_job(("rec_zero", ci, 0x1000, fill, half, True))["texts"]
     seen, out = set(), []
-    for cnt, ln, bh, t in r["texts"]:
+    for cnt, ln, bh, t in texts:
         if "???" in t or not t:
             continue
         t = re.sub(r"\s*\([^()]*=[^()]*\)\s*$", "", t)
@@ -138,16 +146,17 @@ def run(ctx):
     have = set(corpus.cpus_with_corpus())
     jobs = []
     for c in cl:
+        ls = []
         if c["name"] in have:
-            ls = []
             for l in corpus.lines(c["name"]):
                 if re.match(r"^\w+:", l):
                     continue
                 ls.append(l)
-        else:
-            ls = decoder_templates(c["index"], 60 if q else 400)
-        if q:
-            ls = ls[::2] if len(ls) > 120 else ls
+        # instruction forms the corpus does not mention are reached from the binary side
+        shapes = {NUMABS.sub("N", x) for x in ls}
+        for t in decoder_templates(c["index"], 600 if q else 2500):
+            if NUMABS.sub("N", t) not in shapes:
+                ls.append(t)
         for b in R.batched(ls, 40 if q else 25):
             jobs.append((c["name"], c["index"], 0x1000, q, b))
     res = R.pmap(job, jobs, chunk=1, deadline=ctx.deadline)
@@ -163,8 +172,9 @@ def run(ctx):
             tot[k] += st[k]
             pc[k] += st[k]
         pc["colliding_slots"] += len(viol)
-        for line, si, detail in viol:
-            ctx.violation("%s|%s|%d" % (cpu, line, si), "collision", "[%s] template `%s` slot %d: %s" % (cpu, line, si, detail),
+        for line, si, pair, detail in viol:
+            # the identity includes the smallest colliding pair, so a slot that is already unsound is reported again when it gets worse
+            ctx.violation("%s|%s|%d|%s" % (cpu, line, si, pair), "collision", "[%s] template `%s` slot %d: %s" % (cpu, line, si, detail),
                           {"cpu": cpu, "addr": addr, "line": line, "slot": si})
     samples = [{"cpu": "msp430", "template": "add.w #1234, r7", "slot": 0, "posed": ["add.w #%d, r7" % v for v in values(True, 0x1000)[:6]] + ["..."]}]
     cov = {"states": tot["slots"], "transitions": tot["texts"], "traces_validated_against_impl": tot["texts"],
